@@ -75,7 +75,9 @@ class Printer:
             self.expr(expr, 0)
             self.out.append(mark('}'))
         elif is_simple(expr) and not (
-                expr[0] != 'call' and self.layout.pick(self.layout.brace_simple)):
+                expr[0] in ('num', 'var', 'reg', 'neg') and
+                (expr[0] != 'neg' or expr[1][0] == 'num') and
+                self.layout.pick(self.layout.brace_simple)):
             self.simple(expr)
         else:
             self.out.append(mark('{'))
